@@ -102,4 +102,11 @@ TEXTS["C17"] = dict(
                "updated only from observed facts (which contribution exchanges the transport completed, which calls succeeded), is checked in exactly the directions the property states; "
                "partial progress of a failed execute and the instant exactly at the timeout are left undecided.",
     level_note=TRUST2)
+TEXTS["C14"] = dict(
+    technique="deterministic cluster simulation: real DKG then adversarially routed conflicting duties, concurrent per-instance interleavings, crash/clean restarts; threshold-count oracle on BLS-valid partial signatures",
+    level_text="Seeded search over (n,t) accepted by key generation, id sets, conflict type, routing strategy, request form (name / share key, single / batch endpoint), per-instance "
+               "interleavings of the concurrent requests and crash/clean restarts between two request phases, on a cluster of real instances each with its own slashing database. "
+               "Partial signatures are BLS-verified under the share keys and counted per duty and instance; both duties must never reach t, and a duty that does must recover a "
+               "signature valid under the composite key returned by the generation.",
+    level_note=TRUST2)
 NOT_APPLICABLE = {}
